@@ -825,6 +825,21 @@ def c16_matchers(v, text="", n_sing=0, ode=None, target=None, **kw):
         if kk >= 2 and dd.get("where") == "singular value":
             return "C16-sum-of-conditionals"
         return None
+    if kw.get("twice"):
+        # counterfactual on the violating point itself: the model returned by the FIRST application is right there, only the
+        # second application (on a model that already carries the Conditional(Eq(state, value), limit, ...) guard) spoils it
+        if v.get("kind") == "remove_singularities_raises" and d.get("application") == "second" and "NotImplementedError" in d.get("exc", "") and "as_set" in d.get("exc", ""):
+            return "C16-second-application-raises-on-guarded-conditional"
+        once = kw.get("once")
+        want = d.get("limit") if v.get("kind") == "not_the_limit_at_removable_point" else d.get("original") if v.get("kind") == "changed_at_regular_point" else None
+        if once is not None and want is not None and target and isinstance(d.get("point"), dict):
+            try:
+                rec = once.call("monitor_values", dict(d["point"], t=0.0, pg=2.0))
+                g1 = float(rec.out[once.names("monitor")[target]]) if rec.exc is None else float("nan")
+            except Exception:
+                g1 = float("nan")
+            if g1 == g1 and abs(g1 - want) <= 1e-9 * (1 + abs(want)):
+                return "C16-second-application-takes-limit-through-its-own-guard"
     k = d.get("n_removable", n_sing) or 0
     if v.get("kind") == "not_the_limit_at_removable_point" and ode is not None and target and exp_constant_folded(ode, target, d.get("expr", "")):
         # the folded form (c*exp(x) - 1)/(x + a) is not exactly 0/0 at the singular value: the singularity is either not
